@@ -107,6 +107,8 @@ pub struct Gen<'a> {
     pub nusers: u32,
     pub monitors: bool,
     pub mon: crate::monitors::MonState,
+    /// largest blob the generator asks for (requests through the HTTP API must fit its body limit)
+    pub max_blob: usize,
 }
 
 impl<'a> Gen<'a> {
@@ -118,6 +120,8 @@ impl<'a> Gen<'a> {
             3 => SigKind::Truncated,
             4 => SigKind::Flipped,
             5 => SigKind::Garbage,
+            // an empty signature never gets past the HTTP API (it is one of the bad requests there)
+            _ if self.sys.http.is_some() => SigKind::Garbage,
             _ => SigKind::Empty,
         }
     }
@@ -146,6 +150,12 @@ impl<'a> Gen<'a> {
             _ => (BTreeMap::new(), BTreeMap::new()),
         };
         let (out, log) = self.sys.exec(&op, self.rep);
+        if self.sys.http.is_some() && matches!(op, HOp::Reg { .. } | HOp::Add { .. } | HOp::Get { .. } | HOp::Sub { .. }) {
+            if let Some((st, code)) = self.sys.last_http.take() {
+                self.rep.line("ht last", &format!("status={st} code={code}"));
+                crate::httpc::check_documented(self.rep, st, code, true, "valid request");
+            }
+        }
         self.world.apply_rpcs(&log, &send);
         self.rep.count(&format!("op:{}", op_name(&op)));
         for (m, _) in log.iter() {
@@ -178,7 +188,7 @@ impl<'a> Gen<'a> {
         let class = match self.rng.weighted(&[45, 15, 8, 8, 10, 7, 7]) {
             c => c as u32,
         };
-        let len = SIZE_CLASSES[class as usize];
+        let len = SIZE_CLASSES[class as usize].min(self.max_blob);
         let blob = match self.rng.weighted(&[74, 10, 16]) {
             0 => BlobSpec::Enc { dispute: loc, penalty: penalty_num(loc, class), len },
             1 => {
@@ -285,6 +295,10 @@ impl<'a> Gen<'a> {
         }
         while i < nops && !self.sys.dead {
             i += 1;
+            if self.sys.http.is_some() && self.rng.chance(1, 4) {
+                crate::httpc::extras(self);
+                continue;
+            }
             match self.rng.weighted(&[10, 34, 8, 4, 26, 8, 3, if thorough { 2 } else { 1 }]) {
                 0 => {
                     let u = self.rng.range(1, self.nusers as u64) as u32;
@@ -382,13 +396,17 @@ fn op_letter(op: &HOp, out: &Outcome) -> char {
 }
 
 pub fn run(seed: u64, thorough: bool, rep: &mut Report) {
+    run_mode(seed, thorough, rep, false)
+}
+
+pub fn run_mode(seed: u64, thorough: bool, rep: &mut Report, http: bool) {
     install_panic_hook();
     // lock-order graph over everything the histories execute (hook H5, passive observer)
     let recorder = std::sync::Arc::new(crate::sync::Recorder::default());
     teos::vsync::set_observer(Some(recorder.clone()));
     let boot = BootChain::new();
     let mut master = Rng::new(seed);
-    let ncases = if thorough { 4000 } else { 160 };
+    let ncases = if http { if thorough { 600 } else { 60 } } else if thorough { 4000 } else { 160 };
     for c in 0..ncases {
         let mut rng = master.fork();
         let cfg = (
@@ -398,9 +416,12 @@ pub fn run(seed: u64, thorough: bool, rep: &mut Report) {
         );
         let height = 100 + rng.below(40) as u32;
         rep.begin_case(&format!("hist-{seed}-{c}"));
-        let sys = TowerSys::boot(cfg, height, &boot, rep);
+        let mut sys = TowerSys::boot(cfg, height, &boot, rep);
+        if http {
+            sys.http = Some(std::sync::Arc::new(crate::httpfront::HttpFront::start(sys.api.clone())));
+        }
         let nops = rng.range(15, if thorough { 140 } else { 70 }) as usize;
-        let mut g = Gen { rng, sys, world: World::new(), rep: &mut *rep, nlocs: 4, nusers: 3, monitors: true, mon: Default::default() };
+        let mut g = Gen { rng, sys, world: World::new(), rep: &mut *rep, nlocs: 4, nusers: 3, monitors: true, mon: Default::default(), max_blob: if http { 800 } else { usize::MAX } };
         g.history(nops, thorough);
         let shape = g.world.shape.clone();
         let nontrivial = shape.contains('A') && shape.contains('C');
